@@ -1,13 +1,21 @@
 #!/bin/bash
-# usage: mutate.sh <patch-or-sed-script> <check> [args...]
-# Applies a patch to /repo, runs ./bin/check <check> args, reverts. Prints exit code.
+# usage: mutate.sh <patch> <check-id> [args...]
+# Runs a check against a scratch copy of /repo with <patch> applied.  /repo is
+# never touched; evidence/replays of the run go to /verif/.build/out-<hash>/.
+# Prints EXIT=<code> (1 = violation detected, 0 = not detected, 3 = fault).
 set -u
-P="$1"; shift
-cd /repo || exit 9
-if [ -n "$(git status --porcelain)" ]; then echo "repo dirty"; exit 9; fi
-if ! git apply "$P"; then echo "patch failed"; exit 9; fi
+P="$(readlink -f "$1")"; shift
+D=$(mktemp -d /tmp/mut.XXXXXX)
+T=$(echo -n "$D" | sha1sum | cut -c1-8)
+trap 'rm -rf "$D" /verif/.build/bin-$T /verif/.build/ov-$T /verif/.build/overlay-$T.json' EXIT
+git -C /repo archive HEAD | tar -x -C "$D"
+# uncommitted changes of /repo are part of "the current tree"
+git -C /repo diff HEAD | (cd "$D" && git apply --allow-empty 2>/dev/null || true)
+if ! (cd "$D" && git apply "$P" 2>/dev/null || patch -p1 -s < "$P"); then echo "patch failed"; echo "EXIT=9"; exit 9; fi
+if [ "${MUTATE_RUN_TESTS:-0}" = 1 ]; then
+  (cd "$D" && GOFLAGS=-mod=mod GOPROXY=off go test -vet=off -count=1 ./... 2>&1 | grep -v "^ok\|no test files" | head -20; echo "repo tests done")
+fi
 cd /verif
-./bin/check "$@"
+VERIF_REPO="$D" ./bin/check "$@"
 rc=$?
-git -C /repo checkout -- .
 echo "EXIT=$rc"
